@@ -179,6 +179,10 @@ def mutations(tree, tags=(), enum_nonmember=None):
                 out.append(('misspell', path, replace(tree, path, S('str', node[2] + 'x'))))
                 if '_' in node[2]:
                     out.append(('dash', path, replace(tree, path, S('str', node[2].replace('_', '-')))))
+                    if node[2].count('_') > 1:
+                        # only some of the underscores written as dashes ("identical after dashes have been replaced")
+                        out.append(('mixdash', path, replace(tree, path, S('str', node[2].replace('_', '-', 1)))))
+                        out.append(('mixdash', path, replace(tree, path, S('str', node[2][::-1].replace('_', '-', 1)[::-1]))))
                 if '-' in node[2]:
                     out.append(('under', path, replace(tree, path, S('str', node[2].replace('-', '_')))))
         else:
